@@ -31,8 +31,24 @@ Definition v_perm (v : val) : option (option (list N)) :=
 Definition pipeline_ops : list string :=
   ["p.sharded"; "p.direct"; "chk.c04"; "chk.c06.graph"; "chk.graph_exact"; "chk.c06.stranded"; "chk.unitig"]%string.
 
+(* p.shards.<bin> ( K P stranded perm? maxlen reads ) -> number of shards (distinct buckets) the read set produces; the
+   harness puts the size class of the observed number into the op name so that the evidence lists the histogram *)
+Definition is_shards_op (op : string) : bool := String.eqb (substring 0 9 op) "p.shards.".
 Definition d_pipeline (op : string) (v : val) : option val :=
-  if negb (existsb (String.eqb op) pipeline_ops) then None
+  if is_shards_op op then
+    match v with
+    | VL [VN k; VN p; st; pm; VN maxlen; rs] =>
+        match vbool st, v_perm pm, v_lreads rs with
+        | Some s, Some perm, Some reads =>
+            if (match perm with Some t => N.of_nat (List.length t) =? 4 ^ p | None => true end) then
+              Some (ofopt (fun ps => ofnat (List.length (buckets_of ps)))
+                          (pieces_of maxlen (N.to_nat k) (N.to_nat p) perm (negb s) reads))
+            else Some VAny
+        | _, _, _ => None
+        end
+    | _ => None
+    end
+  else if negb (existsb (String.eqb op) pipeline_ops) then None
   else if String.eqb op "p.sharded" then
     match v with
     | VL [VN k; VN p; st; pm; VN thr; VN mode; VN variant; VN maxlen; rs; VL os] =>
